@@ -278,9 +278,10 @@ func c15Stored(e *Env, c *C15Case, base []byte) {
 			if err != nil || db == nil {
 				e.Note("damaged-file-rejected-by-Open")
 				e.Fault("F5." + d.Kind)
-				continue
+				db = nil
+			} else {
+				e.Probe("damaged-file-still-opens")
 			}
-			e.Probe("damaged-file-still-opens")
 		} else {
 			// pages are read lazily: damage the bytes under an open handle
 			g.what = "file damaged while a handle is open"
@@ -302,12 +303,17 @@ func c15Stored(e *Env, c *C15Case, base []byte) {
 			}
 			e.Probe("damaged-under-open-handle")
 		}
-		e.Fault("F5." + d.Kind)
-		n := len(db.ArchiveInfoList())
+		if db != nil {
+			e.Fault("F5." + d.Kind)
+		}
+		n := 0
+		if db != nil {
+			n = len(db.ArchiveInfoList())
+		}
 		if n > 64 {
 			n = 64
 		}
-		for id := -1; id < n && !g.failed; id++ {
+		for id := -1; id < n && !g.failed && db != nil; id++ {
 			g.run(fmt.Sprintf("FetchFromArchive(%d, 0, now)", id), func() error {
 				_, err := db.FetchFromArchive(id, 0, wt.Timestamp(now), wt.Timestamp(now))
 				return err
@@ -323,14 +329,16 @@ func c15Stored(e *Env, c *C15Case, base []byte) {
 				})
 			}
 		}
-		g.run("UpdatePointForArchive(best)", func() error {
-			return db.UpdatePointForArchive(wt.ArchiveIDBest, wt.Timestamp(now-1), 1.5, wt.Timestamp(now))
-		})
-		g.run("UpdatePointsForArchive(best)", func() error {
-			return db.UpdatePointsForArchive([]wt.Point{{Time: wt.Timestamp(now - 3), Value: 1}, {Time: wt.Timestamp(now - 2), Value: 2}, {Time: wt.Timestamp(now), Value: 3}}, wt.ArchiveIDBest, wt.Timestamp(now))
-		})
-		g.run("Sync", func() error { return db.Sync() })
-		db.Close()
+		if db != nil {
+			g.run("UpdatePointForArchive(best)", func() error {
+				return db.UpdatePointForArchive(wt.ArchiveIDBest, wt.Timestamp(now-1), 1.5, wt.Timestamp(now))
+			})
+			g.run("UpdatePointsForArchive(best)", func() error {
+				return db.UpdatePointsForArchive([]wt.Point{{Time: wt.Timestamp(now - 3), Value: 1}, {Time: wt.Timestamp(now - 2), Value: 2}, {Time: wt.Timestamp(now), Value: 3}}, wt.ArchiveIDBest, wt.Timestamp(now))
+			})
+			g.run("Sync", func() error { return db.Sync() })
+			db.Close()
+		}
 		if g.failed {
 			break
 		}
